@@ -239,6 +239,7 @@ pub fn run_check<E: Engine>(engine: &E, cfg: &Cfg) -> Outcome {
     let budget = engine.budget(cfg);
     let runs_override: Option<u64> = std::env::var("VERIF_RUNS").ok().and_then(|s| s.parse().ok());
     let total_runs = runs_override.unwrap_or(budget.runs);
+    let max_secs: f64 = std::env::var("VERIF_MAX_SECS").ok().and_then(|s| s.parse().ok()).unwrap_or(budget.max_secs);
     let stream = stream_id(engine, cfg);
     let next = AtomicU64::new(0);
     let records: Mutex<Vec<RunRecord>> = Mutex::new(Vec::new());
@@ -250,14 +251,14 @@ pub fn run_check<E: Engine>(engine: &E, cfg: &Cfg) -> Outcome {
         cfg.tier.as_str(),
         cfg.seed,
         total_runs,
-        budget.max_secs,
+        max_secs,
         nworkers
     );
 
     std::thread::scope(|scope| {
         for _ in 0..nworkers {
             scope.spawn(|| loop {
-                if started.elapsed().as_secs_f64() > budget.max_secs {
+                if started.elapsed().as_secs_f64() > max_secs {
                     break;
                 }
                 let idx = next.fetch_add(1, Ordering::SeqCst);
